@@ -17,6 +17,9 @@ CodeMap == TLCEval([c \in {SubSeq(Printable, i, i) : i \in 1..95} |->
                       31 + (CHOOSE i \in 1..95 : SubSeq(Printable, i, i) = c)])
 
 S2C(s) == TLCEval([i \in 1..Len(s) |-> CodeMap[SubSeq(s, i, i)]])
+\* total variant for classification only (is this text of a regular shape?): every character outside printable ASCII
+\* counts as the letter x (what the parsers that accept such bytes do with them); never used where two texts are compared by content
+S2CX(s) == TLCEval([i \in 1..Len(s) |-> LET c == SubSeq(s, i, i) IN IF c \in DOMAIN CodeMap THEN CodeMap[c] ELSE 120])
 
 \* code (32..126) -> one-character string; other codes render as "?"
 C2S1(c) == IF c >= 32 /\ c <= 126 THEN SubSeq(Printable, c - 31, c - 31) ELSE "?"
